@@ -176,6 +176,116 @@ class WS:
         self.feed(events.HookCompleted(self.held.pop(0)))
 
 
+class WSWorld:
+    """same interface as WS, but the layer is reached the real way: ProxyConnectionHandler in regular mode,
+    HTTP/1 upgrade request, upstream connect, 101 response - then HttpStream swaps in the WebsocketLayer itself"""
+
+    REQ = (b"GET http://ws.example/chat HTTP/1.1\r\nHost: ws.example\r\nConnection: Upgrade\r\nUpgrade: websocket\r\n"
+           b"Sec-WebSocket-Key: dGhlIHNhbXBsZSBub25jZQ==\r\nSec-WebSocket-Version: 13\r\n%s\r\n")
+    RESP = (b"HTTP/1.1 101 Switching Protocols\r\nConnection: Upgrade\r\nUpgrade: websocket\r\n"
+            b"Sec-WebSocket-Accept: s3pPLMBiTxaQ9kYGzzhZRbK+xOo=\r\n%s\r\n")
+    EXT = b"Sec-WebSocket-Extensions: permessage-deflate\r\n"
+
+    def __init__(self, deflate: bool, policy=None, hold=False):
+        from vmc.drivers.world import World
+
+        self.policy, self.hold = policy, hold
+        self.seen = 0
+        self.flow = None
+        self.world = w = World(mode="regular", policy=self._policy, suspend=(lambda n, d, w_: n == "websocket_message") if hold else None)
+        self.peer = {"c": wspeer.Peer("client", deflate), "s": wspeer.Peer("server", deflate)}
+        self.off = {"c": None, "s": None}
+        self.reg = None
+        w.start()
+        w.client_send(self.REQ % (self.EXT if deflate else b""))
+        w.connect_ok(w.pending_connects()[0])
+        self.srv = w.servers[0]
+        if b"\r\n\r\n" not in self.srv.w.data:
+            raise HarnessError("upgrade request did not reach the server: %r" % self.srv.w.data[:80])
+        self.off["s"] = len(self.srv.w.data)
+        w.server_send(self.srv, self.RESP % (self.EXT if deflate else b""))
+        head, sep, _ = w.client.w.data.partition(b"\r\n\r\n")
+        if not head.startswith(b"HTTP/1.1 101") or not sep:
+            raise HarnessError("no 101 at the client: %r" % w.client.w.data[:80])
+        self.off["c"] = len(head) + 4
+        self.flow = next((d for n, d in w.hook_objs if n == "websocket_start"), None)
+        if self.flow is None:
+            raise HarnessError("websocket_start did not fire: %r" % [n for n, _ in w.hooks])
+        self.ps = w.master.addons.get("proxyserver")
+        self.reg = w.handler.client.id
+        self.ps.connections[self.reg] = w.handler
+        self._pump()
+
+    def _policy(self, name, data, world):
+        if name == "websocket_message":
+            self.seen += 1
+            if self.policy is not None:
+                self.policy(self, data.websocket.messages[-1])
+
+    def _pump(self):
+        for sd, end in (("c", self.world.client), ("s", self.srv)):
+            d = end.w.data
+            if len(d) > self.off[sd]:
+                self.peer[sd].receive(d[self.off[sd]:])
+                self.off[sd] = len(d)
+
+    @property
+    def held(self):
+        return self.world.suspended
+
+    @property
+    def hooks(self):
+        return [n for n, _ in self.world.hooks if n.startswith("websocket_")]
+
+    @property
+    def crash(self):
+        return self.world.errors[0][:200] if self.world.errors else None
+
+    def wire(self, side, data):
+        if side == "c":
+            self.world.client_send(data)
+        else:
+            self.world.server_send(self.srv, data)
+        self._pump()
+
+    def tcp_close(self, side):
+        if side == "c":
+            self.world.client.r.eof = True
+            self.world.client_eof()
+        else:
+            self.srv.r.eof = True
+            self.world.server_eof(self.srv)
+        self._pump()
+
+    def inject(self, from_client, is_text, content):
+        self.world.do(self.ps.inject_websocket, self.flow, not from_client, content, is_text)
+        self._pump()
+
+    def complete(self):
+        self.world.complete_hook(0)
+        self._pump()
+
+    def dispose(self):
+        try:
+            if self.reg is not None:
+                self.ps.connections.pop(self.reg, None)
+            self.world.close_out()
+        finally:
+            self.world.dispose()
+
+
+def observation(w):
+    """what the statement talks about, in a form that is comparable between the two drivers"""
+    ws_ = w.flow.websocket
+    return {
+        "recorded": [[m.from_client, int(m.type), m.content, m.dropped, m.injected] for m in ws_.messages],
+        "peers": {sd: {"messages": [[m[0], m[1], m[2]] for m in p.messages], "pings": p.pings, "pongs": p.pongs,
+                       "closes": [[int(c[0]), c[1]] for c in p.closes], "errors": p.errors} for sd, p in w.peer.items()},
+        "close": [ws_.close_code, ws_.close_reason, ws_.closed_by_client],
+        "hooks": list(w.hooks),
+    }
+
+
 # =============================================================================== family "single"
 
 SMALL = ["empty", "a", "u2", "u4", "mix"]
@@ -297,6 +407,10 @@ def run_single(case, t: Tally, verbose=False):
             if cuts and cuts[-1] >= len(final):
                 cuts.pop()
         cut_in_cp = is_text and any(0 < o < len(final) and cp_lo(final, o) != o for o in cuts)
+    if injected:
+        # an injected message has no original frames: it is cut every 4000 bytes
+        refrag = "resize"
+        cut_in_cp = is_text and any(cp_lo(data, o) != o for o in range(4000, len(data), 4000))
     feats = {"family": case["f"], "type": "text" if is_text else "binary", "deflate": case["deflate"], "edit": edit,
              "frames": "1" if len(pieces) == 1 else "multi", "refrag": refrag, "cut_in_codepoint": cut_in_cp}
     t.case(case if len(t.samples) < 2 and case.get("edit") == "longer" and len(pieces) > 1 else None, nontrivial=w.seen > 0, key=case)
@@ -320,7 +434,10 @@ def run_single(case, t: Tally, verbose=False):
              "echoed": len(src.raw)})
     if not rec:
         return
-    if edit == "pass":
+    if injected:
+        # "each message - as ... injected by addons - is delivered": the message that is recorded and relayed is the one the addon injected
+        t.judge("injected_content_is_what_was_injected", final == data, feats, case, [len(data), data[-8:]], [len(final), final[-12:]])
+    elif edit == "pass":
         t.judge("recorded_equals_sent_when_unmodified", final == data, feats, case, [len(data), data[:32]], [len(final), final[:32]])
     # ---- content equals recorded
     if want_n:
@@ -402,8 +519,9 @@ def units(side, script, deflate, peer):
 
 
 class Sched:
-    def __init__(self, sc, ss, cfg):
-        self.sc, self.ss, self.cfg = sc, ss, cfg
+    def __init__(self, sc, ss, cfg, world=False, quiet=False):
+        self.sc, self.ss, self.cfg, self.world, self.quiet = sc, ss, cfg, world, quiet
+        self.obs = None
 
     def policy(self, ws, m):
         pol = self.cfg[1]
@@ -419,7 +537,15 @@ class Sched:
     def run(self, prefix, t: Tally, verbose=False):
         deflate, pol, hold, inj = self.cfg
         self.nth = {"c": 0, "s": 0}
-        w = WS(deflate, policy=self.policy, hold=hold)
+        w = (WSWorld if self.world else WS)(deflate, policy=self.policy, hold=hold)
+        try:
+            return self._run(w, prefix, t, verbose)
+        finally:
+            if self.world:
+                w.dispose()
+
+    def _run(self, w, prefix, t: Tally, verbose):
+        deflate, pol, hold, inj = self.cfg
         todo = {"c": units("c", self.sc, deflate, w.peer["c"]), "s": units("s", self.ss, deflate, w.peer["s"])}
         sent = {"c": {"ping": [], "pong": []}, "s": {"ping": [], "pong": []}}
         injected = {"c": 0, "s": 0}
@@ -475,18 +601,20 @@ class Sched:
             raise HarnessError("schedule does not terminate")
         while w.held and w.crash is None:
             w.complete()
-        self.judge(w, sent, trace, choices, t, verbose)
+        self.obs = observation(w)
+        if not self.quiet:
+            self.judge(w, sent, trace, choices, t, verbose)
         return choices, widths, costs
 
     def judge(self, w, sent, trace, choices, t: Tally, verbose):
         deflate, pol, hold, inj = self.cfg
-        case = {"f": "sched", "sc": self.sc, "ss": self.ss, "cfg": list(self.cfg), "choices": list(choices)}
-        items = sorted(set(self.sc + self.ss))
-        feats = {"family": "sched", "deflate": deflate, "policy": pol, "hold": hold, "inject": any(a.startswith("inj_") for a in trace),
+        fam = "world" if self.world else "sched"
+        case = {"f": fam, "sc": self.sc, "ss": self.ss, "cfg": list(self.cfg), "choices": list(choices)}
+        feats = {"family": fam, "deflate": deflate, "policy": pol, "hold": hold, "inject": any(a.startswith("inj_") for a in trace),
                  "close": next((x for x in self.sc + self.ss if x in TERMINAL), "-")}
         rec = w.flow.websocket.messages
         t.case(case if len(t.samples) < 3 and len(trace) >= 5 and "hook" in trace else None, nontrivial=w.seen > 0, key=case)
-        t.outcome([feats, [[m.from_client, m.content, m.dropped] for m in rec], w.flow.websocket.close_code, w.conn_closed,
+        t.outcome([feats, [[m.from_client, m.content, m.dropped] for m in rec], w.flow.websocket.close_code,
                    [p.pings + p.pongs for p in w.peer.values()]])
         if verbose:
             print("trace", trace)
@@ -499,10 +627,6 @@ class Sched:
         if w.crash is not None:
             t.bad("each_message_once_in_order_same_type", dict(feats, exception=True), case, "no exception", w.crash)
             return
-        # which close the layer acted on: the first one it *processed*
-        closer = None
-        for a in trace:
-            pass
         ws_ = w.flow.websocket
         ended = "websocket_end" in w.hooks
         for sd in ("c", "s"):
@@ -538,18 +662,59 @@ class Sched:
                     "no close recorded unless a peer closed", {"code": ws_.close_code, "scripts": [self.sc, self.ss]})
 
 
+# =============================================================================== family "world"
+
+WORLD_SCRIPTS = [[], ["T"], ["T2"], ["B"], ["PING"], ["CLOSE"], ["T", "CLOSE0"], ["B", "ABORT"], ["PONG", "T"]]
+WORLD_CONFIGS = [(False, "pass", False, True), (True, "pass", False, False), (False, "longer", True, False), (True, "drop_first", True, False)]
+
+
+def world_cases():
+    out = []
+    for sc in WORLD_SCRIPTS:
+        for ss in WORLD_SCRIPTS:
+            if sc or ss:
+                for cfg in WORLD_CONFIGS:
+                    out.append({"f": "world", "sc": sc, "ss": ss, "cfg": list(cfg)})
+    return out
+
+
+def run_world(case, t: Tally, verbose=False):
+    sc, ss, cfg = case["sc"], case["ss"], tuple(case["cfg"])
+    feats = {"family": "world", "deflate": cfg[0], "policy": cfg[1], "hold": cfg[2]}
+    for choices in ((), (1,)):
+        direct = Sched(sc, ss, cfg, world=False, quiet=True)
+        c1 = direct.run(choices, Tally())
+        real = Sched(sc, ss, cfg, world=True)
+        c2 = real.run(choices, t, verbose=verbose)  # the statement's clauses are judged on the real path as well
+        t.executions += 1
+        if c1[:2] != c2[:2]:
+            raise HarnessError("the two drivers offer different schedules for %r: %r / %r" % (case, c1, c2))
+        same = direct.obs == real.obs
+        diff = None
+        if not same:
+            diff = {k: [direct.obs[k], real.obs[k]] for k in direct.obs if direct.obs[k] != real.obs[k]}
+        t.judge("direct_driver_matches_real_handshake_path", same, feats, dict(case, choices=list(choices)), None, diff)
+        if verbose:
+            print("direct", direct.obs)
+            print("world ", real.obs)
+        if not c1[0]:
+            break
+
+
 # =============================================================================== runner
 
 _N = 2
 
 
-def sched_specs(n, m):
+def sched_specs(n, m, inj_max_items):
     out = []
     for sc in scripts(n):
         for ss in scripts(m):
             if not sc and not ss:
                 continue
             for cfg in CONFIGS:
+                if cfg[3] and len(sc) + len(ss) > inj_max_items:
+                    cfg = cfg[:3] + (False,)  # injections at every point only for the shorter scripts
                 out.append((sc, ss, cfg))
     return out
 
@@ -557,7 +722,9 @@ def sched_specs(n, m):
 def chunk_fn(items):
     t = Tally()
     for it in items:
-        if isinstance(it, dict):
+        if isinstance(it, dict) and it["f"] == "world":
+            run_world(it, t)
+        elif isinstance(it, dict):
             run_single(it, t)
         else:
             sc, ss, cfg = it
@@ -569,12 +736,13 @@ def run(ctx):
     n = ctx.pick(2, 2)
     m = ctx.pick(1, 2)
     singles = single_cases(ctx.tier)
-    sp = sched_specs(n, m)
+    inj_max = ctx.pick(2, 3)
+    sp = sched_specs(n, m, inj_max)
     if n != m:
-        sp += [(ss, sc, cfg) for sc, ss, cfg in sched_specs(n, m) if len(ss) < len(sc)]
+        sp += [(ss, sc, cfg) for sc, ss, cfg in sched_specs(n, m, inj_max) if len(ss) < len(sc)]
     ctx.bounds = {"single_cases": len(singles), "payloads": SMALL + SIZES + LONGTEXT + ["bin"], "edits": EDITS,
                   "max_frames_per_message": 3, "tcp_segmentation_cuts": 1,
-                  "sched_items": ITEMS, "sched_max_items_per_direction": [n, m], "sched_configs": [list(c) for c in CONFIGS], "sched_specs": len(sp)}
+                  "sched_items": ITEMS, "sched_max_items_per_direction": [n, m], "sched_injections_for_scripts_up_to_items": inj_max, "sched_configs": [list(c) for c in CONFIGS], "sched_specs": len(sp)}
     ctx.log("%d single-message cases, %d schedule specs" % (len(singles), len(sp)))
     # determinism self-test
     a, b = Tally(), Tally()
@@ -582,11 +750,15 @@ def run(ctx):
     y = Sched(["T2", "PING"], ["B", "CLOSE"], CONFIGS[4]).run((1, 0, 1), b)
     if x != y or a.outcomes != b.outcomes:
         raise HarnessError("execution is not deterministic")
-    par.pmap_tally(chunk_fn, singles + sp, ctx.tally, nchunks=16 * 16)
+    wc = world_cases()
+    ctx.bounds["world_cross_check_cases"] = len(wc)
+    par.pmap_tally(chunk_fn, singles + sp + wc, ctx.tally, nchunks=16 * 16)
 
 
 def replay(case, t, verbose=False):
-    if case["f"] in ("single", "inject"):
+    if case["f"] == "world":
+        run_world(case, t, verbose=verbose)
+    elif case["f"] in ("single", "inject"):
         run_single(case, t, verbose=verbose)
     else:
         Sched(case["sc"], case["ss"], tuple(case["cfg"])).run(tuple(case["choices"]), t, verbose=verbose)
